@@ -16,7 +16,7 @@ package pebbledb
 //@ func resolveDBLocation
 //@   uses fs
 //@   ensures [C20.resolve] result1 == nil ==> result0 == realPath(dbPath)
-//@   loop 1 invariant realPath(abs) == joinPath(realPath(cur), suffix)
+//@   loop 1 invariant isAbsP(cur) && realPath(abs) == joinPath(realPath(cur), suffix)
 
 // ---- C11 / C07: lock discipline, same-snapshot reads, and the commit protocol of the embedded store.
 // held: 0 = s.mu not held, 1 = read lock, 2 = write lock.  Guarded configuration fields may only be read
@@ -42,7 +42,7 @@ package pebbledb
 //@   call (*github.com/cockroachdb/pebble.DB).Delete transitively assert [C07.direct] false
 //@   call (*github.com/cockroachdb/pebble.DB).DeleteRange transitively assert [C07.direct] false
 //@   call (*github.com/cockroachdb/pebble.DB).Apply transitively assert [C07.direct] false
-//@   ensures [C07.commit] result == nil ==> commits == 1 && commitOK
+//@   ensures [C07.commit] [C18.commit] result == nil ==> commits == 1 && commitOK
 //@   ensures [C07.commit] commits <= 1
 //@ end
 
